@@ -37,10 +37,14 @@ class Context:
         self.analysed: Dict[str, Any] = {"functions": [], "modules": []}
         self.extra: Dict[str, Any] = {}
         self._seen_keys = set()
+        self._alias: Dict[str, str] = {}
+
+    def _r(self, rule: str) -> str:
+        return self._alias.get(rule, rule)
 
     # -- recording -----------------------------------------------------------
     def rule(self, rule_id: str, text: str) -> None:
-        self.rules_run.append(f"{rule_id}: {text}")
+        self.rules_run.append(f"{self._r(rule_id)}: {text}")
 
     def analysed_function(self, qual: str) -> None:
         if qual not in self.analysed["functions"]:
@@ -65,6 +69,7 @@ class Context:
         return cond
 
     def _add(self, rule, key, where, status, detail):
+        rule = self._r(rule)
         full = f"{rule}|{key}"
         if (full, status) in self._seen_keys:
             return None
@@ -82,6 +87,7 @@ class Context:
 
     def floor(self, rule: str, what: str, found: int, minimum: int) -> None:
         """The analysis went blind if fewer rule instances than confirmed by hand exist."""
+        rule = self._r(rule)
         self.extra.setdefault("floors", []).append(
             {"rule": rule, "what": what, "found": found, "minimum": minimum}
         )
@@ -98,6 +104,11 @@ class Context:
 
         The error is kept and re-raised by finish() unless some rule reported a violation (a restructured anchor
         and a violation usually have the same cause, and the violation is the more useful report)."""
+        alias = kwargs.pop("_alias", None)
+        old = self._alias
+        if alias:
+            # a rule shared with another property reports under that property's rule ids
+            self._alias = dict(old, **alias)
         try:
             fn(self, *args, **kwargs)
         except AnalysisError as exc:
@@ -107,6 +118,8 @@ class Context:
             tb = traceback.extract_tb(exc.__traceback__)[-1]
             self.deferred_errors.append(f"{getattr(fn, '__name__', fn)}: internal {type(exc).__name__}: {exc} "
                                         f"({os.path.basename(tb.filename)}:{tb.lineno})")
+        finally:
+            self._alias = old
 
     # -- finishing -------------------------------------------------------------
     def finish(self, explanation: str, assumptions: List[str]) -> int:
